@@ -462,9 +462,19 @@ def case_json(c, o=None):
     d = {k: (v.hex() if isinstance(v, (bytes, bytearray)) else v) for k, v in c.items() if k not in ('wf',)}
     d['fs'] = fs_token(c['fs'])
     d['harness_line'] = case_line(c)
+    if len(c['req']) > 16384:
+        # megabyte requests: keep the replay file small; the request is header + body + a constant-byte payload
+        side = os.path.join(OUT, 'replays'); os.makedirs(side, exist_ok=True)
+        import hashlib
+        fn = os.path.join(side, 'case-%s.txt' % hashlib.sha1(c['req']).hexdigest()[:12])
+        open(fn, 'w').write(d['harness_line'] + '\n')
+        d['req'] = '%s...(%d bytes, payload byte 0x%02x repeated; full harness line in %s)' % (c['req'][:96].hex(), len(c['req']), c['req'][-1], fn)
+        d['harness_line_file'] = fn; d['harness_line'] = None
     if c.get('wf'): d['opcode'] = c['wf']['op']; d['opname'] = OPS[c['wf']['op']][0]
     if o is not None:
-        d['observed'] = {'res': o['res'], 'panic': o['panic'], 'calls': o['calls'], 'packets': [p.hex() for p in o['packets']], 'mem': o['mem'].hex(), 'canary_ok': o['canary']}
+        d['observed'] = {'res': o['res'], 'panic': o['panic'], 'calls': [x if len(x) < 4000 else x[:200] + '...(%d chars)' % len(x) for x in o['calls']],
+                         'packets': [p.hex() if len(p) < 8192 else p[:64].hex() + '...(%d bytes)' % len(p) for p in o['packets']],
+                         'mem': o['mem'].hex() if len(o['mem']) < 8192 else o['mem'][:64].hex() + '...(%d bytes)' % len(o['mem']), 'canary_ok': o['canary']}
     return d
 
 def model_vs_impl(tag, cases, obs, mask, broken, model_fn='handle', header=None):
@@ -486,6 +496,9 @@ def replay(prop, path, binname='codec'):
     exit 1 if the recorded observation reproduces."""
     d = json.load(open(path))
     items = [f.get('shrunk_input') or f.get('input') for f in d.get('failing', [])] + [b.get('case') for b in d.get('broken', []) if isinstance(b, dict)]
+    for i in items:
+        if i and not i.get('harness_line') and i.get('harness_line_file') and os.path.exists(i['harness_line_file']):
+            i['harness_line'] = open(i['harness_line_file']).read().strip()
     items = [i for i in items if i and i.get('harness_line')]
     if not items:
         print(json.dumps(d, indent=1)[:3000]); print('replay: no concrete input recorded in this file (a proof obligation or tie broke; see "broken")'); return 1
